@@ -7,6 +7,7 @@
 #error "harness must be built with -DCTPG_VERIF"
 #endif
 #include <ctpg/ctpg.hpp>
+#include <sys/time.h>
 #include <cstdio>
 #include <cstdlib>
 #include <cstring>
@@ -487,10 +488,15 @@ inline void watchdog_arm(const char* job)
 {
     strncpy(g_wd_job, job, sizeof g_wd_job - 1);
     signal(SIGALRM, watchdog_handler);
+    // CPU time of this process, not wall-clock time: a parse that does not return burns CPU; a machine busy with
+    // sixteen model checkers must not make a finished-in-microseconds parse look like a hang
     const char* t = getenv("VERIF_JOB_TIMEOUT");
-    alarm(t ? unsigned(atoi(t)) : 20u);
+    struct itimerval tv = {};
+    tv.it_value.tv_sec = t ? atoi(t) : 20;
+    signal(SIGPROF, watchdog_handler);
+    setitimer(ITIMER_PROF, &tv, nullptr);
 }
-inline void watchdog_disarm() { alarm(0); }
+inline void watchdog_disarm() { struct itimerval tv = {}; setitimer(ITIMER_PROF, &tv, nullptr); }
 
 template<typename F>
 void run_big_stack(F&& f, size_t bytes = size_t(2) << 30)
